@@ -248,8 +248,20 @@ func (e *Engine) verifyFunctions(keys []string, propFilter func(*Obligation) boo
 func (e *Engine) verifyOne(fn *ssa.Function, fc *FuncContract) *FuncResult {
 	v := e.NewVerifier(fn, fc)
 	fr := &FuncResult{Key: v.key, HasBody: len(fn.Blocks) > 0}
+	if fc != nil {
+		for _, ab := range fc.Ats {
+			ab.seen = false
+		}
+	}
 	if err := v.Run(); err != nil {
 		fr.Unsup = append(fr.Unsup, err.Error())
+	}
+	if fc != nil && len(v.unsup) == 0 {
+		for _, ab := range fc.Ats {
+			if !ab.seen {
+				fr.Unsup = append(fr.Unsup, fmt.Sprintf("at-block %s #%d matched no call on any path (code restructured?)", ab.Callee, ab.Ordinal))
+			}
+		}
 	}
 	fr.Unsup = append(fr.Unsup, v.unsup...)
 	fr.Paths = v.ends
@@ -413,11 +425,12 @@ func (e *Engine) solveAll(obs []*Obligation, stats *SolverStats) {
 				o.parts = append(o.parts, e.buildQuery(o.PC, c, true))
 			}
 		}
-		if o.PCUsing != nil {
-			o.queryU = e.buildQuery(o.PCUsing, o.Goal, true)
+		for i := range o.views {
+			vw := &o.views[i]
+			vw.query = e.buildQuery(vw.pc, o.Goal, true)
 			if len(o.parts) > 0 {
 				for _, c := range o.Goal.args {
-					o.partsU = append(o.partsU, e.buildQuery(o.PCUsing, c, true))
+					vw.parts = append(vw.parts, e.buildQuery(vw.pc, c, true))
 				}
 			}
 		}
@@ -487,22 +500,26 @@ func (e *Engine) solveAll(obs []*Obligation, stats *SolverStats) {
 					}
 					return res
 				}
-				// hidden-assumption attempt first (sound: fewer assumptions)
-				if first.queryU != "" {
-					if len(first.partsU) > 0 {
-						res = solveParts(first.partsU, to)
-					} else {
-						res = SolveHint(e.opts.WorkDir, name+"u", first.queryU, to, stats, first.Name+"#u")
+				// cheaper views first (sound: fewer assumptions)
+				for vi, vw := range first.views {
+					tu := to
+					if vw.budget > 0 && vw.budget < tu {
+						tu = vw.budget
 					}
-					if res.Status != "unsat" && e.opts.Verbose {
-						fmt.Fprintf(os.Stderr, "using-attempt failed (%s) for %s path=%v\n", res.Status, first.Name, first.Path)
+					if len(vw.parts) > 0 {
+						res = solveParts(vw.parts, tu)
+					} else {
+						res = SolveHint(e.opts.WorkDir, fmt.Sprintf("%sv%d", name, vi), vw.query, tu, stats, first.Name+"#"+vw.label)
 					}
 					if res.Status == "unsat" {
-						res.Solver += "(using)"
+						res.Solver += "(" + vw.label + ")"
 						for _, o := range group {
 							o.Result = res
 						}
 						return
+					}
+					if e.opts.Verbose && vw.label != "qf" {
+						fmt.Fprintf(os.Stderr, "%s-attempt failed (%s) for %s path=%v\n", vw.label, res.Status, first.Name, first.Path)
 					}
 				}
 				if len(first.parts) > 0 {
